@@ -110,11 +110,52 @@ def _z3_cli(smt2, timeout_s):
     return 'unknown', None
 
 
+def _cvc5_model_holds(smt2, model_txt, timeout_s):
+    """cvc5 1.0 occasionally answers sat with a model that does not satisfy the query (seen on store/ite-heavy obligations).
+    The model is validated: its definitions replace the declarations of the query and z3 evaluates the now closed formula.
+    True: the model satisfies the query; False: it does not (cvc5's answer is discarded); None: could not be checked"""
+    import re
+    body = model_txt.strip()
+    if not body.startswith('('):
+        return None
+    body = body[1:body.rfind(')')]
+    names = set(re.findall(r'\(define-fun\s+(\|[^|]*\||[^\s()]+)', body))
+    if not names:
+        return None
+    keep = []
+    for line in smt2.splitlines():
+        m = re.match(r'\s*\(declare-(?:fun|const)\s+(\|[^|]*\||[^\s()]+)', line)
+        if m and m.group(1) in names:
+            continue
+        if line.strip().startswith(('(set-logic', '(set-info', '(set-option', '(get-model', '(exit')):
+            continue
+        keep.append(line)
+    txt = body + '\n' + '\n'.join(keep)
+    if '(check-sat)' not in txt:
+        txt += '\n(check-sat)\n'
+    with tempfile.NamedTemporaryFile('w', suffix='.smt2', delete=False) as f:
+        f.write(txt)
+        path = f.name
+    try:
+        p = subprocess.run(['/usr/bin/z3', '-T:%d' % timeout_s, path], capture_output=True, text=True, timeout=timeout_s + 5)
+        out = p.stdout.strip().splitlines()
+        if out and out[0] == 'unsat':
+            return False
+        if out and out[0] == 'sat':
+            return True
+    except Exception:
+        pass
+    finally:
+        os.unlink(path)
+    return None
+
+
 def _cvc5(smt2, timeout_s):
     with tempfile.NamedTemporaryFile('w', suffix='.smt2', delete=False) as f:
         txt = smt2
         if '(set-logic' not in txt:
             txt = '(set-logic ALL)\n' + txt
+        txt = '(set-option :produce-models true)\n' + txt + '\n(get-model)\n'
         f.write(txt)
         path = f.name
     try:
@@ -123,6 +164,9 @@ def _cvc5(smt2, timeout_s):
         if out and out[0] == 'unsat':
             return 'proved'
         if out and out[0] == 'sat':
+            ok = _cvc5_model_holds(smt2, '\n'.join(out[1:]), 30)
+            if ok is False:
+                return 'invalid-model'
             return 'refuted'
     except Exception:
         pass
